@@ -196,7 +196,11 @@ def _parse(out, family, res):
             res["hashes"].add(h)
             if kv.get("nt") == "1":
                 res["nontrivial"].add(h)
-            pass
+            for t in kv.get("ms", "").split(","):
+                if ":" in t:
+                    mname, st = t.split(":", 1)
+                    d = res.setdefault("models", {}).setdefault(mname, {"accepted": 0, "not_applicable": 0, "rejected": 0})
+                    d["accepted" if st == "ok" else "not_applicable" if st == "na" else "rejected"] += 1
         elif line.startswith("V "):
             _, idx, prop, msg = line.split(" ", 3)
             res["bad"].append((family, int(idx), prop, msg))
@@ -335,7 +339,8 @@ def run_check(pid, tier, seed):
         for fam, weight in fam_cfg:
             n = max(10, int(scale["n"] * weight * cfg.get("scale", {}).get(tier, 1)))
             r = run_family(binp, fam, n, seed, [pid], shards=scale["shards"], mem=bool(cfg.get("mem")))
-            per_family[fam] = {"executions": r["runs"], "violating": len({(b[0], b[1]) for b in r["bad"]}), "model_rejected": len(r["rejected"]), "livelocks": len(r["livelocks"])}
+            per_family[fam] = {"executions": r["runs"], "violating": len({(b[0], b[1]) for b in r["bad"]}), "model_rejected": len(r["rejected"]), "livelocks": len(r["livelocks"]),
+                               "traces_per_model": {m: "%d accepted, %d not applicable" % (d["accepted"], d["not_applicable"]) for m, d in sorted(r.get("models", {}).items())}}
             for k in ("bad", "rejected", "livelocks", "errors"):
                 total[k] += [(fam, x) if k == "livelocks" else x for x in r[k]]
             total["runs"] += r["runs"]
